@@ -6,7 +6,7 @@
     the capacities and the estimator. *)
 From Coq Require Import List ZArith.
 Import ListNotations.
-From VF Require Import Base Lru Slru Tiny WTiny TinyStep KeyProj KeyProjSlru KeyProjWTiny.
+From VF Require Import Base Lru Slru Tiny WTiny TinyStep KeyProj KeyProjSlru KeyProjTwoQ KeyProjArc KeyProjWTiny KeyProjCompRun.
 
 Theorem C10_put_is_value_blind : forall s k v,
   match wput s k v with
@@ -33,6 +33,15 @@ Theorem C10_remove_is_value_blind : forall s k,
   let '(s', r) := wremove s k in kwremove (wproj s) k = (wproj s', hit r).
 Proof. exact wremove_blind. Qed.
 
+(** whole histories: after any sequence of put / get / get_mut / remove with whatever values the window, the main cache and
+    the estimator are what W-TinyLFU over keys alone holds after the same calls - and the run panics exactly when that one does *)
+Theorem C10_history_is_value_blind : forall ops s,
+  match crun wtiny wvstep s ops with
+  | Ok s' => ckrun kwtiny wkstep (wproj s) (map cstrip ops) = Ok (wproj s')
+  | Panic n => ckrun kwtiny wkstep (wproj s) (map cstrip ops) = Panic n
+  end.
+Proof. exact wrun_blind. Qed.
+
 (** the same puts with and without values on a real configuration (window 1, protected 2, probationary 1): the same key
     ends in the window, the same keys in the main cache *)
 Definition wcfg : list Z :=
@@ -56,3 +65,4 @@ Print Assumptions C10_put_is_value_blind.
 Print Assumptions C10_admission_is_value_blind.
 Print Assumptions C10_get_is_value_blind.
 Print Assumptions C10_remove_is_value_blind.
+Print Assumptions C10_history_is_value_blind.
